@@ -572,6 +572,8 @@ def run(rep, tier, seed):
                 rep.inconclusive_reason("asan build failed, the asan slice was not run: %s" % str(e).replace("\n", " | ")[-400:])
             else:
                 raise
+    if tier == "thorough":
+        _libfuzzer_documents(rep, seed)
     table, per_model = class_table()
     all_singles = [("s", mi, fi) for mi in range(len(MODELS)) for fi in range(per_model[mi])]
     n_single = len(all_singles)
@@ -785,6 +787,37 @@ def _pass_from_unit(o, variant):
     ps.outcomes = o["outcomes"]
     ps.hashes = set(o["hashes"])
     return ps
+
+
+def _libfuzzer_documents(rep, seed):
+    """coverage-guided generation (libFuzzer on the ASan build of harness/fuzz, target fuzz_model) seeded with the shipped
+    models: crash artifacts and a part of the final corpus join the hostile documents; the verdict on each is the driver's"""
+    import fuzzing
+
+    seeds = [text.encode("utf-8") for _, text in MODELS if len(text) < 20000]
+    words = ["<decision ", "<inputData ", "<businessKnowledgeModel ", "<decisionService ", "<itemDefinition ", "<itemComponent ", "<typeRef>", "</typeRef>", "href=\"#", "<requiredDecision ", "<requiredKnowledge ",
+             "<requiredInput ", "<decisionTable ", "<rule>", "<inputEntry>", "<outputEntry>", "<output ", "<input ", "<context>", "<contextEntry>", "<invocation>", "<binding>", "<relation>", "<list>", "<functionDefinition>",
+             "<literalExpression>", "<text>", "</text>", "isCollection=\"true\"", "hitPolicy=\"", "aggregation=\"", "<allowedValues>", "<encapsulatedLogic>", "<formalParameter ", "<variable ", "<outputDecision ", "<inputDecision ",
+             "<encapsulatedDecision "]
+    try:
+        crashes, stats = fuzzing.run("fuzz_model", seeds, fuzzing.SECONDS, rep.workdir, max_len=20000, seed=seed, dictionary=words, keep_corpus=2500)
+    except runner.Inconclusive as ex:
+        print("NOTE property=C12 libFuzzer slot skipped: %s" % str(ex)[:300])
+        rep.extra["libfuzzer"] = "unavailable: " + str(ex)[:300]
+        return
+    seen = set(seeds)
+    n = 0
+    for blob in crashes + stats.pop("corpus"):
+        if blob in seen:
+            continue
+        seen.add(blob)
+        try:
+            HOSTILE.append(("libfuzzer-%d" % n, blob.decode("utf-8")))
+            n += 1
+        except UnicodeDecodeError:
+            pass
+    stats["documents_replayed_in_driver"] = n
+    rep.extra["libfuzzer"] = stats
 
 
 def replay(rp):
